@@ -562,6 +562,24 @@ def r12_hash_encoding(ctx):
     r2_encoder(ctx)
 
 
+def r14_hash_describes_settings(ctx):
+    """'unchanged settings -> no new optimisation' is decided by the stored
+    hash: it has to cover every setting and the data, and no setting may be
+    written after it was taken (such a write goes through __setitem__,
+    drops the hash again, and the next identical request fits anew)"""
+    from .c12 import r1_coverage
+    r1_coverage(ctx)
+
+
+def r15_request_reaches_the_pipeline(ctx):
+    """the stored preprocessing settings describe the data only if the
+    request that fit_model stores is the request the pipeline ran with:
+    an explicit empty list/dict is a request of its own, not "use the
+    remembered one" (only None is)"""
+    from .c06 import r6_skip_test
+    r6_skip_test(ctx)
+
+
 def r13_tested_value_is_stored(ctx):
     """'Unchanged' is decided by comparing the stored setting with the
     requested value, so the value that is stored must be the one that was
@@ -705,4 +723,9 @@ RULES = [
      "are represented", r12_hash_encoding),
     ("C03-R13", "the requested value compared with the stored setting is "
      "the value that gets stored", r13_tested_value_is_stored),
+    ("C03-R14", "the stored hash covers data and settings and is taken "
+     "after the last settings write", r14_hash_describes_settings),
+    ("C03-R15", "apply_preprocessing runs the request it is given (only "
+     "None means the remembered pipeline) and compares both items",
+     r15_request_reaches_the_pipeline),
 ]
